@@ -149,6 +149,8 @@ func (p *Protocol) downloadBlockFromPeerOld(height int64, pid peer.ID) (*types.B
 		return nil, err
 	}
 	defer stream.Close()
+	// the context above only bounds NewStream: bound the exchange itself as well
+	_ = stream.SetDeadline(time.Now().Add(time.Second * 10))
 	blockReq := types.MessageGetBlocksReq{
 		Message: &types.P2PGetBlocks{
 			StartHeight: height,
